@@ -40,8 +40,10 @@ func handleTabularOutput(w http.ResponseWriter, originalStatement string, codedS
 	Println("Include IG Script input in generated output:", printIgScriptInput)
 	// Output type
 	Println("Output type:", outputType)
+	verifYield("tabular:options-set")
 	// Convert input
 	output, err2 := endpoints.ConvertIGScriptToTabularOutput(originalStatement, codedStmt, stmtId, outputType, "", true, tabular.IncludeHeader(), printOriginalStatement, printIgScriptInput)
+	verifYield("tabular:converted")
 	if err2.ErrorCode != tree.PARSING_NO_ERROR {
 		retStruct.Success = false
 		retStruct.Error = true
@@ -124,8 +126,10 @@ func handleVisualOutput(w http.ResponseWriter, codedStmt string, stmtId string, 
 	tree.SetBinaryPrinting(binaryOutput)
 	Println("Setting activation condition on top in visual output:", moveActivationConditionsToTop)
 	tree.SetMoveActivationConditionsToFront(moveActivationConditionsToTop)
+	verifYield("visual:options-set")
 	// Convert input
 	output, err2 := endpoints.ConvertIGScriptToVisualTree(codedStmt, stmtId, "")
+	verifYield("visual:converted")
 	if err2.ErrorCode != tree.PARSING_NO_ERROR {
 		retStruct.Success = false
 		retStruct.Error = true
